@@ -2,6 +2,7 @@ import CCT.Model.Cli
 import CCT.Props.C10
 import CCT.Props.C08
 import CCT.Lemmas.GpgPath
+import CCT.Model.CliEdit
 import CCT.Props.C05
 import CCT.Props.C03
 /-!
@@ -200,5 +201,63 @@ theorem gpg_sign_end_to_end (C : Crypto) (G : GpgBackend) (ep : EntryPoint) (fpr
   · simp only [cliGpgSign, hfile, exitStatus]
   · rw [verifySignable_canon _ _ _ _ _ hwf']
     exact hver
+
+/-! ## the interactive editor (`modify-metadata`), model `Model/CliEdit.lean` -/
+
+/-- **the interactive editor writes at most once, only where the user says, and only the canonical serialization of the metadata it ends with**;
+it exits with status 0 exactly when the session ended by "write" or "abort" -/
+theorem editLoop_writes (C : CryptoFns) (G : GpgBackend) (sslib : Bool) :
+    ∀ (f : Nat) (md : J) (inputs : List PStr) (w : List (PStr × Bytes)),
+      ((editLoop C G sslib f md inputs w).writes = w ∨
+        ∃ name, (editLoop C G sslib f md inputs w).writes = w ++ [(name, ser (editLoop C G sslib f md inputs w).md)] ∧
+                (editLoop C G sslib f md inputs w).outcome = .returned none)
+  | 0, md, inputs, w => by simp [editLoop]
+  | f+1, md, [], w => by simp [editLoop]
+  | f+1, md, sel :: rest, w => by
+    have ih := editLoop_writes C G sslib f
+    unfold editLoop
+    split
+    · exact ih md rest w
+    · rename_i n hn
+      by_cases h0 : n = 0
+      · rw [if_pos h0]
+        split
+        · left; rfl
+        · rename_i fname r'; right; exact ⟨fname, rfl, rfl⟩
+      rw [if_neg h0]
+      by_cases h1 : n = 1
+      · rw [if_pos h1]; left; rfl
+      rw [if_neg h1]
+      by_cases h2 : n = 2
+      · rw [if_pos h2]
+        split
+        · left; rfl
+        · rename_i key rest'
+          split
+          · exact ih _ rest' w
+          · left; rfl
+      rw [if_neg h2]
+      by_cases h7 : n = 7
+      · rw [if_pos h7]
+        split
+        · left; rfl
+        · left; rfl
+        · exact ih md _ w
+        · exact ih _ _ w
+      rw [if_neg h7]
+      exact ih md rest w
+
+
+/-- `modify-metadata` never touches the file it reads and leaves no file behind when the session is aborted or cut short -/
+theorem edit_session_files (C : CryptoFns) (G : GpgBackend) (sslib : Bool) (file : Option Bytes) (inputs : List PStr) :
+    (cliModifyMetadata C G sslib file inputs).writes = [] ∨
+    ∃ name, (cliModifyMetadata C G sslib file inputs).writes = [(name, ser (cliModifyMetadata C G sslib file inputs).md)] ∧
+      (cliModifyMetadata C G sslib file inputs).outcome = .returned none := by
+  unfold cliModifyMetadata
+  split
+  · left; rfl
+  · rename_i md _
+    have := editLoop_writes C G sslib (inputs.length + 1) md inputs []
+    simpa using this
 
 end CCT.C17
